@@ -141,9 +141,7 @@ func runC19(c *Ctx) {
 		// value += 8 only on the total > value edge
 		totalF, valueF := p.Field("broker", "roundedCounter", "total"), p.Field("broker", "roundedCounter", "value")
 		if totalF != nil && valueF != nil {
-			edges := condEdges(inc, true, func(a Atom) bool {
-				return a.Op == token.LSS && isFieldLoadOf(a.X, valueF) && isFieldLoadOf(a.Y, totalF)
-			})
+			edges := cmpEdges(inc, "<", func(v ssa.Value) bool { return isFieldLoadOf(v, valueF) }, func(v ssa.Value) bool { return isFieldLoadOf(v, totalF) })
 			for _, s := range storesToField([]*ssa.Function{inc}, valueF) {
 				bo, ok := s.Val.(*ssa.BinOp)
 				k := int64(0)
